@@ -95,7 +95,25 @@ func valDesc(v ssa.Value) string {
 	if fp := fieldPath(v); fp != "?" && !strings.HasPrefix(fp, "?") {
 		return fp
 	}
-	return v.Name()
+	// never an SSA register name (unstable under unrelated edits): describe by kind and type
+	switch x := v.(type) {
+	case *ssa.MakeSlice:
+		return "make(" + shortType(x.Type()) + ")"
+	case *ssa.Alloc:
+		if x.Comment != "" {
+			return "local:" + x.Comment
+		}
+		return "new(" + shortType(x.Type()) + ")"
+	case *ssa.Slice:
+		return valDesc(x.X) + "[:]"
+	case *ssa.UnOp:
+		return "*" + valDesc(x.X)
+	case *ssa.MakeInterface:
+		return valDesc(x.X)
+	case *ssa.FreeVar:
+		return x.Name()
+	}
+	return "<" + shortType(v.Type()) + ">"
 }
 
 // lenOf: v is len(x) (possibly converted); returns x
@@ -573,7 +591,7 @@ func panicFree(p *Prog, r *Report, rule string, roots []*ssa.Function, scope fun
 	}
 	sort.Slice(fns, func(i, j int) bool { return fns[i].String() < fns[j].String() })
 	nsites, ndis, nallowed := 0, 0, 0
-	usedAllow := map[string]bool{}
+	usedAllow := map[string]int{}
 	for _, fn := range fns {
 		file := p.fileOf(fn)
 		if _, ex := excludedFiles[file]; ex {
@@ -588,8 +606,16 @@ func panicFree(p *Prog, r *Report, rule string, roots []*ssa.Function, scope fun
 			short = strings.Replace(short, "("+modPath+"/", "(", 1)
 			if reason, ok := panicAllow[short]; ok {
 				nallowed++
-				usedAllow[short] = true
+				usedAllow[short]++
 				r.ok(rule, short, p.Pos(s.In.Pos()), "reviewed: "+reason)
+				continue
+			}
+			// the same expression of the same package moved into another (renamed / extracted)
+			// function: accepted once per reviewed entry
+			if k2, reason := matchMovedSite(short, usedAllow); k2 != "" {
+				nallowed++
+				usedAllow[k2]++
+				r.ok(rule, k2, p.Pos(s.In.Pos()), "reviewed (site now in "+s.Fn.Name()+"): "+reason)
 				continue
 			}
 			var path []string
@@ -603,4 +629,38 @@ func panicFree(p *Prog, r *Report, rule string, roots []*ssa.Function, scope fun
 	r.count("panic_sites", nsites)
 	r.count("bounds_discharged", ndis)
 	r.ok(rule, "summary", "", fmt.Sprintf("%d functions reachable from %d entry points; %d bound checks discharged by the guard analysis; %d reviewed sites", len(fns), len(roots), ndis, nallowed))
+}
+
+
+// splitSiteKey: "<function>:<kind>:<expr>" -> package, kind+expr
+func splitSiteKey(k string) (pkg, rest string) {
+	// function part ends at the first ":" followed by a known kind
+	for _, kind := range []string{":panic:", ":typeassert:", ":index:", ":slice:", ":div:", ":exit:"} {
+		if i := strings.Index(k, kind); i >= 0 {
+			fn := k[:i]
+			rest = k[i+1:]
+			fn = strings.TrimLeft(fn, "(*")
+			if j := strings.Index(fn, "."); j >= 0 {
+				pkg = fn[:j]
+			}
+			return pkg, rest
+		}
+	}
+	return "", k
+}
+
+func matchMovedSite(short string, used map[string]int) (string, string) {
+	pkg, rest := splitSiteKey(short)
+	var keys []string
+	for k := range panicAllow {
+		keys = append(keys, k)
+	}
+	sort.Strings(keys)
+	for _, k := range keys {
+		p2, r2 := splitSiteKey(k)
+		if p2 == pkg && r2 == rest && used[k] == 0 {
+			return k, panicAllow[k]
+		}
+	}
+	return "", ""
 }
